@@ -1,6 +1,6 @@
 (* C05 — sequentially, the containers refine a plain map plus a set of locked keys. *)
 From Coq Require Import List Arith ZArith.
-From LK Require Import AList Model Inv StepInv PropLemmas Seq DropInv SeqRefine.
+From LK Require Import AList Model Inv StepInv PropLemmas Seq DropInv SeqRefine SeqLimit.
 Import ListNotations.
 
 (* The guard operations (insert, remove, value_mut, try_insert, value_or_insert(_with), value) return and
@@ -103,3 +103,52 @@ Example C05_history_witness :
      SKeys; SLock ShBlocking 1; SGop 2 GRemove; SDrop 2; SCount] = Some sp' /\
     sp_guards sp' = [] /\ sp_val sp' 1 = None.
 Proof. eexists. split; [vm_compute; reflexivity|]. split; reflexivity. Qed.
+
+(* ------------------------------------------------------------------ *)
+(* ... with soft limits (SeqLimit.v).  Between the calls of a single thread that uses the limited variants the
+   only calls in flight are acquisitions suspended in their eviction callbacks (Qc).  Complete calls behave as
+   above also then (the body of a callback, re-entrant calls included): *)
+Theorem C05_call_refines_inside_callbacks : forall c s sp a call sp' ospec,
+  Qc s -> aget a (s_ops s) = None -> R s sp -> spec_call sp call = Some (sp', ospec) ->
+  exists s' o, seq_call c s a call = ROk s' o /\ Qc s' /\ s_ops s' = s_ops s /\ R s' sp' /\ obs_ok sp call ospec o.
+Proof. exact seq_call_refines_cb. Qed.
+
+(* a limited acquisition either suspends in its callback with guards the plain map + locked set allows
+   (offer_ok: distinct, unlocked, valued keys with their values; no more than needed to make room; all evictable
+   ones if that is not enough; only when the limit is reached) or IS the unlimited acquisition, ... *)
+Theorem C05_limited_call_refines : forall c s sp a sh k n,
+  Qc s -> aget a (s_ops s) = None -> R s sp -> 1 <= n ->
+  (exists s' l sp', seq_start_lim c s a sh k n = ROk s' (OOffered l) /\ Qc s' /\
+      s_ops s' = aset a (PInCb sh k n (map ogid l)) (s_ops s) /\ R s' sp' /\ offer_ok sp n l sp')
+  \/ seq_start_lim c s a sh k n = seq_call c s a (SLock sh k).
+Proof. exact start_lim_refines. Qed.
+
+(* ... when its callback fails it ends with that failure and the map + locked set is untouched, ... *)
+Theorem C05_callback_failure_refines : forall c s sp ops' a sh k n off r,
+  Qc s -> s_ops s = ops' ++ [(a, PInCb sh k n off)] -> R s sp -> r <> CbOk ->
+  seq_cbret c s a r = ROk (base_of s ops') (match r with CbPanic => OPanicked | _ => OErr end) /\
+  Qc (base_of s ops') /\ R (base_of s ops') sp.
+Proof. exact cbret_fail_refines. Qed.
+
+(* ... and when it succeeds the acquisition re-evaluates as if it were made at that moment (a single thread's
+   callbacks return innermost first, so the returning acquisition is the last one in flight). *)
+Theorem C05_callback_success_refines : forall c s sp ops' a sh k n off,
+  Qc s -> s_ops s = ops' ++ [(a, PInCb sh k n off)] -> R s sp -> 1 <= n ->
+  (exists s' l sp', seq_cbret c s a CbOk = ROk s' (OOffered l) /\ Qc s' /\
+      s_ops s' = aset a (PInCb sh k n (map ogid l)) ops' /\ R s' sp' /\ offer_ok sp n l sp')
+  \/ seq_cbret c s a CbOk = seq_call c (base_of s ops') a (SLock sh k).
+Proof. exact cbret_ok_refines. Qed.
+
+(* non-vacuity: 1 -> 5 and 2 -> 6 stored; blocking_lock(3) with limit 2 offers the least recently used entry
+   (key 1) to the callback, which removes its value and drops the guard; when it returns Ok the call
+   proceeds and locks key 3 *)
+Example C05_limit_witness :
+  let c := mkCfg true in
+  let st := fun r => match r with ROk s _ => s | _ => init end in
+  let s5 := st (seq_call c (st (seq_call c (st (seq_call c (st (seq_call c (st (seq_call c (st (seq_call c init 0
+              (SLock ShBlocking 1))) 0 (SGop 0 (GInsert 5)))) 0 (SDrop 0))) 0 (SLock ShTry 2))) 0 (SGop 1 (GInsert 6)))) 0 (SDrop 1)) in
+  exists s6 s9,
+    seq_start_lim c s5 7 ShBlocking 3 2 = ROk s6 (OOffered [(2, 1, 5%Z)]) /\
+    seq_cbret c (st (seq_call c (st (seq_call c s6 0 (SGop 2 GRemove))) 0 (SDrop 2))) 7 CbOk = ROk s9 (OGuard 3 3 None) /\
+    map fst (s_ents s9) = [2; 3] /\ s_ops s9 = [].
+Proof. cbv zeta. eexists. eexists. split; [vm_compute; reflexivity|]. split; [vm_compute; reflexivity|]. split; reflexivity. Qed.
